@@ -250,6 +250,18 @@ func (ef *Filter) Process(ctx context.Context, e *eventlogger.Event) (*eventlogg
 			if err := ef.filterField(ctx, payloadValue, filterOverrides, tm, opts...); err != nil {
 				return nil, fmt.Errorf("%s: %w", op, err)
 			}
+		} else {
+			// a Taggable map is only tracked once one of its tags matched a
+			// key: make sure it's tracked, so its untagged values are filtered
+			// as well when none did.
+			if err := tm.trackMap(&tMap{value: reflect.ValueOf(taggedInterface), filteredFields: map[string]struct{}{}}); err != nil {
+				return nil, fmt.Errorf("%s: %w", op, err)
+			}
+		}
+	case pKind == reflect.Map:
+		// an untagged map payload: all of its values are filtered
+		if err := tm.trackMap(&tMap{value: payloadValue, filteredFields: map[string]struct{}{}}); err != nil {
+			return nil, fmt.Errorf("%s: %w", op, err)
 		}
 	case pKind == reflect.Slice:
 		switch {
